@@ -52,6 +52,7 @@ var genFiles = []genFile{
 	{Name: "ChainProofs", Imports: []string{"ChainTypes", "Command"}},
 	{Name: "PolicyAcc"},
 	{Name: "PolicyMatch", Prelude: policyMatchPrelude},
+	{Name: "PolicyOrder", ModelImports: []string{"NodeApi"}},
 	{Name: "ChainEntry", Imports: []string{"ChainTypes"}, Prelude: chainEntryPrelude},
 	{Name: "ChainProofsShell", Imports: []string{"ChainTypes"}, Prelude: "variable (ext_Covers : Bytes → Bytes → GoM Bool)\n"},
 	{Name: "ChainShell", Imports: []string{"ChainTypes"}, Prelude: chainShellPrelude},
@@ -72,6 +73,7 @@ var targets = []target{
 	{Dir: "pkg/policy", Name: "accumulate", Lean: "accumulate", File: "PolicyAcc"},
 	{Dir: "pkg/policy", Recv: "Policy", Name: "Match", Lean: "Policy_Match", File: "PolicyMatch", Uses: []string{"ext_matchStatement"}},
 	{Dir: "pkg/policy", Recv: "Policy", Name: "PartialMatch", Lean: "Policy_PartialMatch", File: "PolicyMatch", Uses: []string{"ext_matchStatement"}},
+	{Dir: "pkg/policy", Name: "isOrdered", Lean: "isOrdered", File: "PolicyOrder", Concrete: []string{"datamodel.Node"}},
 	{Dir: "pkg/policy", Name: "parseGlob", Lean: "parseGlob", File: "Glob", Fuel: []string{"pattern.length + 1"}},
 	{Dir: "pkg/policy", Recv: "glob", Name: "Match", Lean: "glob_Match", File: "Glob",
 		Fuel: []string{"(str.length + 1) * (pattern.length + 2) + 1", "pattern.length + 1"}},
@@ -290,6 +292,8 @@ var libCalls = map[string]libCall{
 	"mapEntries__":  {"(mapEntries $1)", ty{"(List (Node × Node))", "[]nodepair"}, nil},
 	"pairFst__":     {"($1).1", ty{"Node", "datamodel.Node"}, nil},
 	"pairSnd__":     {"($1).2", ty{"Node", "datamodel.Node"}, nil},
+	"math.IsNaN":    {"(Float64.isNaN $1)", boolTy, nil},
+	"math.IsInf":    {"(floatIsInf $1 $2)", boolTy, nil},
 	"strings.Split": {"(splitOn $1 $2)", ty{"(List Bytes)", "[]string"}, nil}, // a non-empty separator (the callers pass a constant)
 }
 
@@ -312,6 +316,8 @@ var externMethods = map[string]libCall{
 	"datamodel.Node.LookupByIndex":    {"(lookupByIndex $r $1)", ty{"Node", "datamodel.Node"}, nil},
 	"datamodel.Node.AsBytes":          {"(asBytes $r)", ty{"Bytes", "[]byte"}, nil},
 	"datamodel.Node.AsString":         {"(asString $r)", ty{"Bytes", "string"}, nil},
+	"datamodel.Node.AsInt":            {"(asInt $r)", intTy, nil},
+	"datamodel.Node.AsFloat":          {"(asFloat $r)", ty{"UInt64", "float64"}, nil},
 	"*time.Time.Unix":                 {"(deref $r)", ty{"Int", "int64"}, nil},
 	"*args.Args.ReadOnly":             {"(ext_ReadOnly $r)", ty{"R", "args.ReadOnly"}, []string{"ext_ReadOnly"}},
 	"*args.Args.Validate":             {"(ext_argsValidate $r)", ty{"Unit", "unit"}, []string{"ext_argsValidate"}},
@@ -421,6 +427,13 @@ var constTable = map[string]constDef{
 	"multicodec.P384Pub":      {"(4609 : Int)", intTy},
 	"multicodec.P521Pub":      {"(4610 : Int)", intTy},
 	"multicodec.RsaPub":       {"(4613 : Int)", intTy},
+	"datamodel.Kind_Int":      {"Kind.int", ty{"Kind", "datamodel.Kind"}},
+	"datamodel.Kind_Float":    {"Kind.float", ty{"Kind", "datamodel.Kind"}},
+	"datamodel.Kind_String":   {"Kind.str", ty{"Kind", "datamodel.Kind"}},
+	"datamodel.Kind_Bytes":    {"Kind.bytes", ty{"Kind", "datamodel.Kind"}},
+	"datamodel.Kind_Bool":     {"Kind.bool", ty{"Kind", "datamodel.Kind"}},
+	"datamodel.Kind_Null":     {"Kind.null", ty{"Kind", "datamodel.Kind"}},
+	"datamodel.Kind_Link":     {"Kind.link", ty{"Kind", "datamodel.Kind"}},
 	"datamodel.Kind_List":     {"Kind.list", ty{"Kind", "datamodel.Kind"}},
 	"datamodel.Kind_Map":      {"Kind.map", ty{"Kind", "datamodel.Kind"}},
 	"math.MinInt":             {"(-9223372036854775808 : Int)", intTy},
